@@ -184,6 +184,17 @@ Theorem C17_paths_exact : forall nl src dst p,
 Proof. exact paths_exact. Qed.
 Print Assumptions C17_paths_exact.
 
+(* paths() called with collections (or the None defaults): entry [s][d] of the result
+   is exactly the single-pair answer, whatever else is in the collections (in particular
+   when the source is also one of the destinations) *)
+Theorem C17_paths_multi_pairwise : forall nl srcs dsts,
+  (forall s row d ps, In (s, row) (paths_multi nl srcs dsts) -> In (d, ps) row ->
+     In s srcs /\ In d dsts /\ ps = paths nl s d)
+  /\ (forall s d, In s srcs -> In d dsts ->
+       exists row, In (s, row) (paths_multi nl srcs dsts) /\ In (d, paths nl s d) row).
+Proof. exact paths_multi_pairwise. Qed.
+Print Assumptions C17_paths_multi_pairwise.
+
 (* the former read-port witness (i -> addr; rd = m[addr]; m[wa] <<= rd ^ 1; o <<= ~rd):
    before the fix paths(i, o) also returned a path containing the read net twice;
    now exactly the one simple path is returned *)
